@@ -92,7 +92,8 @@ def esc1(ctx: Ctx) -> None:
                 dn = norm(d.func) if isinstance(d, ast.Call) else norm(d)
                 if dn.split(".")[-1] in ("lru_cache", "cache", "cached_property"):
                     import re as _re
-                    scal = _re.compile(r"^(Optional\[)?(bool|int|float|str|bytes|types\.CodeType|CodeType)(\])?$")
+                    from ..taint import _ScalarAnn
+                    scal = _ScalarAnn()
                     anns = [ast.unparse(a.annotation).strip("'\"") if a.annotation is not None else "" for a in fn.args.posonlyargs + fn.args.args + fn.args.kwonlyargs if a.arg not in ("self", "cls")]
                     if anns and all(scal.match(a_) for a_ in anns):
                         ctx.R.ok("ESC-1", f"{mod.name}.{q}: @{dn} over {anns}", "memo keyed by immutable values / code objects: nothing of the observed program's state is retained")
